@@ -1,1 +1,47 @@
 // Kani contract harnesses for /repo/arrow-select/src/concat.rs (child module: sees private items via super::)
+use super::*;
+#[path = "/verif/kani/support/spec.rs"]
+mod spec;
+use spec::*;
+use arrow_array::types::Int32Type;
+use arrow_buffer::{BooleanBuffer, Buffer, NullBuffer, ScalarBuffer};
+
+fn i32_array(store: &[i32; 2], bm: Option<&[u8; 1]>) -> PrimitiveArray<Int32Type> {
+    let nulls = bm.map(|bm| NullBuffer::new(BooleanBuffer::new(Buffer::from_slice_ref(bm), 0, 2)));
+    unsafe { PrimitiveArray::<Int32Type>::new_unchecked(ScalarBuffer::new(Buffer::from_slice_ref(store), 0, 2), nulls) }
+}
+
+// Contract (C03, layer 1, single attempt): concat_primitives::<Int32Type>([a0, a1]) with 2 arrays x 2 rows:
+// the result has 4 rows = rows of a0 then rows of a1 (values on valid slots, nulls preserved).
+// The typed core takes &[&dyn Array], appends through PrimitiveBuilder::append_array and ends in
+// PrimitiveBuilder::finish (ArrayData-level, measured out of reach in the design phase).
+// @unit name=concat_i32_2x2 props=C03 kind=bounded bound=arrays=2_rows=2_validity_on_first_array_only fns=concat_primitives tier=thorough timeout=900 mem=10 note=not_confirmed_at_checkpoint
+#[kani::proof]
+#[kani::unwind(8)]
+#[kani::stub(alloc::fmt::format, stub_format)]
+fn concat_i32_2x2() {
+    let s0: [i32; 2] = kani::any();
+    let s1: [i32; 2] = kani::any();
+    let bm: [u8; 1] = kani::any();
+    let a0 = i32_array(&s0, Some(&bm));
+    let a1 = i32_array(&s1, None);
+    let r = concat_primitives::<Int32Type>(&[&a0, &a1]);
+    match &r {
+        Ok(out) => {
+            let out = out.as_any().downcast_ref::<PrimitiveArray<Int32Type>>().unwrap();
+            assert!(out.len() == 4);
+            let mut k = 0;
+            while k < 4 {
+                let null = k < 2 && !bit(&bm, k);
+                assert!(out.is_null(k) == null);
+                if !null { assert!(out.value(k) == if k < 2 { s0[k] } else { s1[k - 2] }); }
+                k += 1;
+            }
+        }
+        Err(_) => assert!(false),
+    }
+    kani::cover!(!bit(&bm, 1));
+    std::mem::forget(r);
+    std::mem::forget(a0);
+    std::mem::forget(a1);
+}
